@@ -231,6 +231,9 @@ inductive GoExpr
   | structLit (ty : GoTy) (file : Nat) (sname : Name) (ents : List (Nat × GoExpr))   -- &T{ F: e, … }
   | addr (e : GoExpr)                           -- &e
   | ptrTrick (ty : GoTy) (e : GoExpr)           -- (&struct{x T}{e}).x
+  | unamp (e : GoExpr)                          -- the text of e without its leading `&` (elemValue)
+  | star (e : GoExpr)                           -- *e (elemValue: the identifier of a struct constant)
+  | strConv (e : GoExpr)                        -- string(e) (a binary constant used as map key)
   deriving Repr, Inhabited
 
 /-- `strings.HasPrefix(val, "&")` -/
@@ -304,13 +307,22 @@ def bFalse : Bytes := [102, 97, 108, 115, 101]
 /-- float64 `> 0` on a bit pattern -/
 def dblPos (bits : Nat) : Bool := bits < 9223372036854775808 && bits != 0 && !isNaN bits
 
-/-- `strings.ReplaceAll(s, "\"", "\\\"")` -/
-def escQ : Bytes → Bytes
+/-- the loop of `quoteLiteral`: a backslash takes the next character with it (an escaped single quote loses its
+    backslash), a bare double quote is escaped, raw line breaks become their escape sequences -/
+def quoteBody : Bytes → Bytes
   | [] => []
-  | c :: r => if c = 34 then 92 :: 34 :: escQ r else c :: escQ r
+  | c :: r =>
+      if c = 92 then
+        (match r with
+         | d :: r' => (if d = 39 then [39] else [92, d]) ++ quoteBody r'
+         | [] => [92])                                  -- a trailing backslash falls to the default case
+      else if c = 34 then 92 :: 34 :: quoteBody r
+      else if c = 10 then 92 :: 110 :: quoteBody r
+      else if c = 13 then 92 :: 114 :: quoteBody r
+      else c :: quoteBody r
 
-/-- the Go literal emitted for an IDL string literal -/
-def emitStr (s : Bytes) : Bytes := 34 :: (escQ s ++ [34])
+/-- `quoteLiteral`: the Go literal emitted for an IDL string literal -/
+def emitStr (s : Bytes) : Bytes := 34 :: (quoteBody s ++ [34])
 
 /-! ### the scalar cases -/
 
@@ -328,13 +340,13 @@ def onBool (E : Env) (g : Nat) (v : CV) : Res GoExpr :=
         | .panic => .panic
   | _ => .err
 
-def onInt (E : Env) (root g : Nat) (t : ATy) (v : CV) : Res GoExpr :=
+def onInt (E : Env) (root g gv : Nat) (t : ATy) (v : CV) : Res GoExpr :=
   match v with
   | .int n => .ok (.intLit n)
   | .ident s x =>
       if s = bTrue then .ok (.intLit 1)
       else if s = bFalse then .ok (.intLit 0)
-      else match getID E g x with
+      else match getID E gv x with
         | .ok (some r) =>
             match typeName E root g t with
             | .ok ty => .ok (.conv ty (t.cat.intBits.getD 64) (.ident r))
@@ -410,54 +422,86 @@ def structOf (E : Env) (g : Nat) (t : ATy) : Res (Nat × AStruct) :=
 /-- the tail of onStructLike's loop body: pointer trick and `&` -/
 def redirect (f : AField) (typ : GoTy) (e : GoExpr) : GoExpr :=
   if needRedirect f then
-    let e' := if f.ty.cat.isBase then GoExpr.ptrTrick typ e else e
+    let e' := if f.ty.cat.isBase || f.ty.cat == .enum then GoExpr.ptrTrick typ e else e
     if e'.startsAmp then e' else .addr e'
   else e
 
+/-- Resolver.derefContainer: the container type a (typedef'd) type names, with the scope its element types are
+    written in -/
+def derefC (E : Env) (g : Nat) (t : ATy) : Res (Nat × ATy) :=
+  match t.elem? with
+  | some _ => .ok (g, t)
+  | none =>
+    match deref E E.derefFuel g t with
+    | some (g', t') => if t'.elem?.isSome then .ok (g', t') else .err
+    | none => .err
+
+/-- Resolver.elemValue: under value_type_in_container a struct-like element is a value: `&T{…}` loses its `&`,
+    the identifier of a struct constant (a pointer) is dereferenced -/
+def elemValue (E : Env) (t : ATy) (e : GoExpr) : GoExpr :=
+  if t.cat == .strct && E.vtic then (if e.startsAmp then .unamp e else .star e) else e
+
+def CV.isIdent : CV → Bool
+  | .ident _ _ => true
+  | _ => false
+
+/-- onMap: a binary constant used as a key by identifier is converted, binary keys are strings in Go -/
+def keyValue (kt : ATy) (k : CV) (e : GoExpr) : GoExpr :=
+  if kt.cat == .bin && k.isIdent then .strConv e else e
+
 mutual
-/-- Resolver.resolveConst -/
-def resolveConst (E : Env) (root : Nat) : Nat → ATy → CV → Res GoExpr
+/-- Resolver.resolveConst. `gv` is `Resolver.values`: the scope the whole constant expression is written in --
+    identifiers are looked up there; `g` is the scope the TYPE `t` is written in -/
+def resolveConst (E : Env) (root gv : Nat) : Nat → ATy → CV → Res GoExpr
   | g, t, v =>
     match t.cat with
-    | .bool => onBool E g v
-    | .i8 | .i16 | .i32 | .i64 => onInt E root g t v
-    | .dbl => onDouble E g v
-    | .str | .bin => onStrBin E g t v
-    | .enum => onEnum E g v
+    | .bool => onBool E gv v
+    | .i8 | .i16 | .i32 | .i64 => onInt E root g gv t v
+    | .dbl => onDouble E gv v
+    | .str | .bin => onStrBin E gv t v
+    | .enum => onEnum E gv v
     | .list | .set =>
         match typeName E root g t with
         | .err => .err
         | .panic => .panic
         | .ok ty =>
-          match v with
-          | .list xs =>
-              match resolveList E root g t.elem? xs with
-              | .ok es => .ok (.sliceLit ty es)
-              | .err => .err
-              | .panic => .panic
-          | .ident _ x =>
-              match getID E g x with
-              | .ok (some r) => .ok (.ident r)
-              | .panic => .panic
-              | _ => .ok (.sliceLit ty [])
-          | _ => .ok (.sliceLit ty [])
+          match derefC E g t with
+          | .err => .err
+          | .panic => .panic
+          | .ok (g', t') =>
+            match v with
+            | .list xs =>
+                match resolveList E root gv g' t'.elem? xs with
+                | .ok es => .ok (.sliceLit ty es)
+                | .err => .err
+                | .panic => .panic
+            | .ident _ x =>
+                match getID E gv x with
+                | .ok (some r) => .ok (.ident r)
+                | .panic => .panic
+                | _ => .ok (.sliceLit ty [])
+            | _ => .ok (.sliceLit ty [])
     | .map =>
         match typeName E root g t with
         | .err => .err
         | .panic => .panic
         | .ok ty =>
-          match v with
-          | .map kvs =>
-              match resolvePairs E root g (t.key?.map bin2str) t.elem? kvs with
-              | .ok es => .ok (.mapLit ty es)
-              | .err => .err
-              | .panic => .panic
-          | .ident _ x =>
-              match getID E g x with
-              | .ok (some r) => .ok (.ident r)
-              | .panic => .panic
-              | _ => .ok (.mapLit ty [])
-          | _ => .ok (.mapLit ty [])
+          match derefC E g t with
+          | .err => .err
+          | .panic => .panic
+          | .ok (g', t') =>
+            match v with
+            | .map kvs =>
+                match resolvePairs E root gv g' t'.key? t'.elem? kvs with
+                | .ok es => .ok (.mapLit ty es)
+                | .err => .err
+                | .panic => .panic
+            | .ident _ x =>
+                match getID E gv x with
+                | .ok (some r) => .ok (.ident r)
+                | .panic => .panic
+                | _ => .ok (.mapLit ty [])
+            | _ => .ok (.mapLit ty [])
     | .strct =>
         match typeName E root g t with
         | .err => .err
@@ -465,43 +509,43 @@ def resolveConst (E : Env) (root : Nat) : Nat → ATy → CV → Res GoExpr
         | .ok ty =>
           match v with
           | .ident _ x =>
-              match getID E g x with
+              match getID E gv x with
               | .ok (some r) => .ok (.ident r)
               | .panic => .panic
               | _ => .err
           | .map kvs =>
               match structOf E g t with
               | .ok (file, st) =>
-                  match resolveMembers E root file st kvs with
+                  match resolveMembers E root gv file st kvs with
                   | .ok ents => .ok (.structLit ty file st.name ents)
                   | .err => .err
                   | .panic => .panic
               | .err => .err
               | .panic => .panic
           | _ => .err
-/-- the loop of onSetOrList; a nil `t.ValueType` (typedef'd container) is dereferenced by the first element -/
-def resolveList (E : Env) (root : Nat) : Nat → Option ATy → List CV → Res (List GoExpr)
+/-- the loop of onSetOrList -/
+def resolveList (E : Env) (root gv : Nat) : Nat → Option ATy → List CV → Res (List GoExpr)
   | _, _, [] => .ok []
   | _, none, _ :: _ => .panic
   | g, some e, x :: xs =>
-      match resolveConst E root g e x with
+      match resolveConst E root gv g e x with
       | .ok a =>
-          match resolveList E root g (some e) xs with
-          | .ok r => .ok (a :: r)
+          match resolveList E root gv g (some e) xs with
+          | .ok r => .ok (elemValue E e a :: r)
           | .err => .err
           | .panic => .panic
       | .err => .err
       | .panic => .panic
-/-- the loop of onMap -/
-def resolvePairs (E : Env) (root : Nat) : Nat → Option ATy → Option ATy → List (CV × CV) → Res (List (GoExpr × GoExpr))
+/-- the loop of onMap (the key is resolved at `bin2str` of the key type) -/
+def resolvePairs (E : Env) (root gv : Nat) : Nat → Option ATy → Option ATy → List (CV × CV) → Res (List (GoExpr × GoExpr))
   | _, _, _, [] => .ok []
   | g, some kt, some vt, (k, v) :: r =>
-      match resolveConst E root g kt k with
+      match resolveConst E root gv g (bin2str kt) k with
       | .ok a =>
-          match resolveConst E root g vt v with
+          match resolveConst E root gv g vt v with
           | .ok b =>
-              match resolvePairs E root g (some kt) (some vt) r with
-              | .ok rest => .ok ((a, b) :: rest)
+              match resolvePairs E root gv g (some kt) (some vt) r with
+              | .ok rest => .ok ((keyValue kt k a, elemValue E vt b) :: rest)
               | .err => .err
               | .panic => .panic
           | .err => .err
@@ -509,8 +553,9 @@ def resolvePairs (E : Env) (root : Nat) : Nat → Option ATy → Option ATy → 
       | .err => .err
       | .panic => .panic
   | _, _, _, _ :: _ => .panic
-/-- the loop of onStructLike: members are resolved in the scope `file` of the struct's definition -/
-def resolveMembers (E : Env) (root : Nat) : Nat → AStruct → List (CV × CV) → Res (List (Nat × GoExpr))
+/-- the loop of onStructLike: the members' TYPES are read in the scope `file` of the struct's definition, the
+    identifiers among their values still in `gv` -/
+def resolveMembers (E : Env) (root gv : Nat) : Nat → AStruct → List (CV × CV) → Res (List (Nat × GoExpr))
   | _, _, [] => .ok []
   | file, st, (k, v) :: r =>
       match k with
@@ -522,9 +567,9 @@ def resolveMembers (E : Env) (root : Nat) : Nat → AStruct → List (CV × CV) 
               | .err => .err
               | .panic => .panic
               | .ok typ =>
-                match resolveConst E root file f.ty v with
+                match resolveConst E root gv file f.ty v with
                 | .ok e =>
-                    match resolveMembers E root file st r with
+                    match resolveMembers E root gv file st r with
                     | .ok rest => .ok ((idx, redirect f typ e) :: rest)
                     | .err => .err
                     | .panic => .panic
@@ -580,23 +625,34 @@ inductive LexSt
   | num (base rem acc : Nat) (rune : Bool)         -- inside \ooo \xhh \uhhhh \Uhhhhhhhh: `rem` digits to go
   deriving DecidableEq, Repr, Inhabited
 
+/-- the single-character escapes and the starts of the numeric ones: character after the backslash ↦ next state
+    and bytes gained -/
+def escTable : List (Nat × (LexSt × Bytes)) :=
+  [(97, (.norm, [7])),                  -- \a
+   (98, (.norm, [8])),                  -- \b
+   (102, (.norm, [12])),                -- \f
+   (110, (.norm, [10])),                -- \n
+   (114, (.norm, [13])),                -- \r
+   (116, (.norm, [9])),                 -- \t
+   (118, (.norm, [11])),                -- \v
+   (92, (.norm, [92])),                 -- \\
+   (34, (.norm, [34])),                 -- \"
+   (120, (.num 16 2 0 false, [])),      -- \x
+   (117, (.num 16 4 0 true, [])),       -- \u
+   (85, (.num 16 8 0 true, []))]        -- \U
+
+def escLookup (c : Nat) : List (Nat × (LexSt × Bytes)) → Option (LexSt × Bytes)
+  | [] => none
+  | (k, v) :: r => if c = k then some v else escLookup c r
+
 /-- one character: next state and the bytes the literal's value gains; `none` = not a valid literal -/
 def lexStep : LexSt → Nat → Option (LexSt × Bytes)
   | .norm, c => if c = 92 then some (.esc, []) else some (.norm, [c])
   | .esc, c =>
-      if c = 97 then some (.norm, [7])          -- \a
-      else if c = 98 then some (.norm, [8])     -- \b
-      else if c = 102 then some (.norm, [12])   -- \f
-      else if c = 110 then some (.norm, [10])   -- \n
-      else if c = 114 then some (.norm, [13])   -- \r
-      else if c = 116 then some (.norm, [9])    -- \t
-      else if c = 118 then some (.norm, [11])   -- \v
-      else if c = 92 then some (.norm, [92])    -- \\
-      else if c = 34 then some (.norm, [34])    -- \"
-      else if c = 120 then some (.num 16 2 0 false, [])   -- \x
-      else if c = 117 then some (.num 16 4 0 true, [])    -- \u
-      else if c = 85 then some (.num 16 8 0 true, [])     -- \U
-      else match octDigit? c with
+      match escLookup c escTable with
+      | some r => some r
+      | none =>
+        match octDigit? c with
         | some d => some (.num 8 2 d false, [])
         | none => none                          -- unknown escape (\' included: it is for rune literals only)
   | .num base rem acc rune, c =>
@@ -626,13 +682,17 @@ def goUnquote (raw : Bytes) : Option Bytes :=
   | 34 :: r => unqFrom .norm r
   | _ => none
 
-/-- the IDL literal (delimiter already unescaped by the parser) interpreted by the target language: escape
-    sequences as in Go, every other character -- a quote, a newline -- stands for itself
-    (docs/string-literals-in-the-IDL.md) -/
+/-- one character of an IDL literal: Go's escape sequences, plus the IDL's own escaped single quote -/
+def idlStep (st : LexSt) (c : Nat) : Option (LexSt × Bytes) :=
+  if st = .esc ∧ c = 39 then some (.norm, [39]) else lexStep st c
+
+/-- the IDL literal (the delimiter it was written with already unescaped by the parser) interpreted by the
+    target language: escape sequences as in Go, `\'` a single quote, every other character -- a double quote, a
+    line break -- stands for itself (docs/string-literals-in-the-IDL.md) -/
 def interpFrom : LexSt → Bytes → Option Bytes
   | st, [] => if st = .norm then some [] else none
   | st, c :: r =>
-      match lexStep st c with
+      match idlStep st c with
       | some (st', out) => (interpFrom st' r).map (out ++ ·)
       | none => none
 
@@ -690,6 +750,12 @@ def evalGo (E : Env) (ρ : ConstEnv) : GoExpr → Option GoVal
       | .ptrTrick _ a => evalGo E ρ a          -- a pointer to a fresh variable holding the value
       | _ => none                              -- `&Const`, `&0`, `&PtrVar`: not addressable / wrong type
   | .ptrTrick _ e => evalGo E ρ e
+  | .unamp e => evalGo E ρ e                     -- the value itself instead of a pointer to it
+  | .star e => evalGo E ρ e                      -- the value a pointer constant points to
+  | .strConv e =>
+      match evalGo E ρ e with
+      | some (.bytes b) => some (.bytes b)
+      | _ => none
 def evalGoList (E : Env) (ρ : ConstEnv) : List GoExpr → Option (List GoVal)
   | [] => some []
   | e :: r =>
@@ -720,7 +786,7 @@ def goEnvOf (E : Env) : Nat → ConstEnv
   | fuel + 1 => fun f n =>
       match E.findConst f n with
       | some c =>
-          match resolveConst E f f c.ty c.val with
+          match resolveConst E f f f c.ty c.val with
           | .ok e => evalGo E (goEnvOf E fuel) e
           | _ => none
       | none => none
@@ -908,7 +974,7 @@ def fieldDefault (E : Env) (fuel : Nat) (file : Nat) (f : AField) : Option GoVal
   match f.dflt with
   | none => none
   | some d =>
-      match resolveConst E file file f.ty d with
+      match resolveConst E file file file f.ty d with
       | .ok e => evalGo E (goEnvOf E fuel) e
       | _ => none
 
@@ -953,55 +1019,40 @@ def getter (f : FieldDef) (v : GoVal) : GoVal :=
   if supportIsSet f then (if Std.isSet f v then v else defaultVar f) else v
 
 
-/-! ### specification-side predicates: hypotheses of `const_value`, exact acceptance -/
-
-mutual
-def identFree : CV → Bool
-  | .ident _ x => x.isNone          -- `true`/`false` and unresolved names carry no Extra: they mean the same in every scope
-  | .list xs => identFreeL xs
-  | .map kvs => identFreeP kvs
-  | _ => true
-def identFreeL : List CV → Bool
-  | [] => true
-  | x :: r => identFree x && identFreeL r
-def identFreeP : List (CV × CV) → Bool
-  | [] => true
-  | (k, v) :: r => identFree k && identFree v && identFreeP r
-end
-
-def litOK (s : Bytes) : Bool := goUnquote (emitStr s) == interp s
+/-! ### specification-side predicates: hypothesis of `const_value`, exact acceptance -/
 
 def isMapLit : CV → Bool
   | .map _ => true
   | _ => false
 
-/-- a member that needs a pointer but is not of a base type: only a struct literal gives an addressable value -/
-def addrOK (f : AField) (v : CV) : Bool :=
-  if needRedirect f && !f.ty.cat.isBase then f.ty.cat == .strct && isMapLit v else true
-
-/-- a string literal must be one on which Go's reading of the emitted text is the literal's meaning -/
-def goodStr : CV → Bool
-  | .lit s => litOK s
-  | _ => true
+/-- a struct-typed member must be given by a literal: for the identifier of a struct constant (already a
+    pointer) the code emits `&C`, a `**T` -/
+def addrOK (f : AField) (v : CV) : Bool := f.ty.cat != .strct || isMapLit v
 
 mutual
+/-- the hypothesis of `const_value`: no struct literal sets a struct-typed member by identifier -/
 def good (E : Env) : Nat → ATy → CV → Bool
   | g, t, v =>
     match t.cat with
-    | .str | .bin => goodStr v
     | .list | .set =>
         match v with
-        | .list xs => (match t.elem? with | some e => goodL E g e xs | none => true)
+        | .list xs =>
+            (match derefC E g t with
+             | .ok (g', t') => (match t'.elem? with | some e => goodL E g' e xs | none => true)
+             | _ => true)
         | _ => true
     | .map =>
         match v with
-        | .map kvs => (match t.key?, t.elem? with | some k, some w => goodP E g (bin2str k) w kvs | _, _ => true)
+        | .map kvs =>
+            (match derefC E g t with
+             | .ok (g', t') => (match t'.key?, t'.elem? with | some k, some w => goodP E g' (bin2str k) w kvs | _, _ => true)
+             | _ => true)
         | _ => true
     | .strct =>
         match v with
         | .map kvs =>
             match structOf E g t with
-            | .ok (file, st) => (file == g || identFreeP kvs) && goodM E file st kvs
+            | .ok (file, st) => goodM E file st kvs
             | _ => true
         | _ => true
     | _ => true
@@ -1025,24 +1076,13 @@ def CV.isLeaf : CV → Bool
   | .list _ | .map _ => false
   | _ => true
 
-
 /-- thriftgo accepted the program: every constant's initialiser resolves (root scope = its own file) -/
 def Accepted (E : Env) : Prop :=
-  ∀ f n c, E.findConst f n = some c → ∃ e, resolveConst E f f c.ty c.val = .ok e
+  ∀ f n c, E.findConst f n = some c → ∃ e, resolveConst E f f f c.ty c.val = .ok e
 
-/-- every constant's initialiser satisfies the hypotheses of `const_value` -/
+/-- every constant's initialiser satisfies the hypothesis of `const_value` -/
 def EnvGood (E : Env) : Prop :=
   ∀ f n c, E.findConst f n = some c → good E f c.ty c.val = true
-
-/-- the scan of the literal never meets a quote right after a backslash that starts an escape, nor a raw newline -/
-def litSafe : LexSt → Bytes → Bool
-  | _, [] => true
-  | st, c :: r =>
-      if st = .esc ∧ c = 34 then false
-      else if st = .norm ∧ c = 10 then false
-      else match lexStep st c with
-        | some (st', _) => litSafe st' r
-        | none => true
 
 def resOk {α : Type} : Res α → Bool
   | .ok _ => true
@@ -1066,7 +1106,7 @@ def noPanic {α : Type} : Res α → Bool
   | .panic => false
   | _ => true
 
-/-! the kinds of initializer each scalar category takes (C04's catalogue) -/
+/-! the kinds of initializer each scalar category takes (C04's catalogue); `g` = the scope of the identifiers -/
 
 def accBool (E : Env) (g : Nat) (v : CV) : Bool :=
   match v with
@@ -1074,10 +1114,10 @@ def accBool (E : Env) (g : Nat) (v : CV) : Bool :=
   | .ident s x => isTF s || idResolves E g x
   | _ => false
 
-def accInt (E : Env) (root g : Nat) (t : ATy) (v : CV) : Bool :=
+def accInt (E : Env) (root g gv : Nat) (t : ATy) (v : CV) : Bool :=
   match v with
   | .int _ => true
-  | .ident s x => isTF s || (idResolves E g x && noPanic (typeName E root g t))
+  | .ident s x => isTF s || (idResolves E gv x && noPanic (typeName E root g t))
   | _ => false
 
 def accDouble (E : Env) (g : Nat) (v : CV) : Bool :=
@@ -1098,59 +1138,66 @@ def accEnum (E : Env) (g : Nat) (v : CV) : Bool :=
   | .ident _ x => idResolves E g x
   | _ => false
 
-def accScalar (E : Env) (root g : Nat) (t : ATy) (v : CV) : Bool :=
+def accScalar (E : Env) (root gv g : Nat) (t : ATy) (v : CV) : Bool :=
   match t.cat with
-  | .bool => accBool E g v
-  | .i8 | .i16 | .i32 | .i64 => accInt E root g t v
-  | .dbl => accDouble E g v
-  | .str | .bin => accStr E g v
-  | .enum => accEnum E g v
+  | .bool => accBool E gv v
+  | .i8 | .i16 | .i32 | .i64 => accInt E root g gv t v
+  | .dbl => accDouble E gv v
+  | .str | .bin => accStr E gv v
+  | .enum => accEnum E gv v
   | _ => false
 
 mutual
 /-- exactly the initializers thriftgo accepts (the tolerance for containers included) -/
-def accepts (E : Env) (root : Nat) : Nat → ATy → CV → Bool
+def accepts (E : Env) (root gv : Nat) : Nat → ATy → CV → Bool
   | g, t, v =>
     match t.cat with
     | .list | .set =>
         resOk (typeName E root g t) &&
-        (match v with
-         | .list xs => acceptsL E root g t.elem? xs
-         | .ident _ x => !idPanics E g x
-         | _ => true)                                     -- any other kind: `T{}`
+        (match derefC E g t with
+         | .ok (g', t') =>
+            (match v with
+             | .list xs => acceptsL E root gv g' t'.elem? xs
+             | .ident _ x => !idPanics E gv x
+             | _ => true)                                     -- any other kind: `T{}`
+         | _ => false)
     | .map =>
         resOk (typeName E root g t) &&
-        (match v with
-         | .map kvs => acceptsP E root g (t.key?.map bin2str) t.elem? kvs
-         | .ident _ x => !idPanics E g x
-         | _ => true)
+        (match derefC E g t with
+         | .ok (g', t') =>
+            (match v with
+             | .map kvs => acceptsP E root gv g' t'.key? t'.elem? kvs
+             | .ident _ x => !idPanics E gv x
+             | _ => true)
+         | _ => false)
     | .strct =>
         resOk (typeName E root g t) &&
         (match v with
-         | .ident _ x => idResolves E g x
+         | .ident _ x => idResolves E gv x
          | .map kvs =>
              (match structOf E g t with
-              | .ok (file, st) => acceptsM E root file st kvs
+              | .ok (file, st) => acceptsM E root gv file st kvs
               | _ => false)
          | _ => false)
-    | _ => accScalar E root g t v
-def acceptsL (E : Env) (root : Nat) : Nat → Option ATy → List CV → Bool
+    | _ => accScalar E root gv g t v
+def acceptsL (E : Env) (root gv : Nat) : Nat → Option ATy → List CV → Bool
   | _, _, [] => true
   | _, none, _ :: _ => false
-  | g, some e, x :: xs => accepts E root g e x && acceptsL E root g (some e) xs
-def acceptsP (E : Env) (root : Nat) : Nat → Option ATy → Option ATy → List (CV × CV) → Bool
+  | g, some e, x :: xs => accepts E root gv g e x && acceptsL E root gv g (some e) xs
+def acceptsP (E : Env) (root gv : Nat) : Nat → Option ATy → Option ATy → List (CV × CV) → Bool
   | _, _, _, [] => true
-  | g, some kt, some vt, (k, v) :: r => accepts E root g kt k && accepts E root g vt v && acceptsP E root g (some kt) (some vt) r
+  | g, some kt, some vt, (k, v) :: r =>
+      accepts E root gv g (bin2str kt) k && accepts E root gv g vt v && acceptsP E root gv g (some kt) (some vt) r
   | _, _, _, _ :: _ => false
-def acceptsM (E : Env) (root : Nat) : Nat → AStruct → List (CV × CV) → Bool
+def acceptsM (E : Env) (root gv : Nat) : Nat → AStruct → List (CV × CV) → Bool
   | _, _, [] => true
   | file, st, (k, v) :: r =>
       (match k with
        | .lit n =>
            (match findField st.fields n with
-            | some (_, f) => resOk (typeName E root file f.ty) && accepts E root file f.ty v
+            | some (_, f) => resOk (typeName E root file f.ty) && accepts E root gv file f.ty v
             | none => false)
-       | _ => false) && acceptsM E root file st r
+       | _ => false) && acceptsM E root gv file st r
 end
 
 end Gen.Defaults
